@@ -319,3 +319,27 @@ Fixpoint rrun (s : filt) (ops : list rop) : filt * list rout :=
   | o :: tl => let '(s1, r) := rstep s o in
                let '(s2, rs) := rrun s1 tl in (s2, r :: rs)
   end.
+
+(* ---------------- choose_filters: the filter pipeline is bounded ---------------- *)
+(* What the bidders and the filter initialisers do is an oracle: [bids d] = the bids made at depth d
+   (in bidder order), [init_ok d] = whether the winner's init succeeds, [probe_ok] = whether the
+   final one-byte read-ahead succeeds.  Returns (status, number of filters pushed). *)
+Fixpoint best_bidder (bids : list Z) (best : Z) (found : bool) : bool :=
+  match bids with
+  | [] => found
+  | b :: tl => if (best <? b)%Z then best_bidder tl b true else best_bidder tl best found
+  end.
+
+Fixpoint choose_loop (fuel : nat) (depth : nat) (bids : nat -> list Z) (init_ok : nat -> bool)
+         (probe_ok : bool) : Z * nat :=
+  match fuel with
+  | O => (ARCHIVE_FATAL, depth)                      (* "Input requires too many filters" *)
+  | S k =>
+    if best_bidder (bids depth) 0%Z false then
+      if init_ok depth then choose_loop k (S depth) bids init_ok probe_ok
+      else (ARCHIVE_FATAL, S depth)
+    else if probe_ok then (ARCHIVE_OK, depth) else (ARCHIVE_FATAL, depth)
+  end.
+
+Definition choose_filters (bids : nat -> list Z) (init_ok : nat -> bool) (probe_ok : bool) : Z * nat :=
+  choose_loop (N.to_nat MAX_NUMBER_FILTERS) 0 bids init_ok probe_ok.
